@@ -294,3 +294,28 @@ func TestVerifReplayUpgradeOtherUsersCookie(t *testing.T) {
 		t.Logf("REPLAY-NOT-REPRODUCED")
 	}
 }
+
+// C14: the fifth consecutive failed TOTP evaluation must lock the user out for (at least) an hour.
+func TestVerifReplayTOTPLockoutEscalation(t *testing.T) {
+	state, tmpdir, err := testCreateRuntimeStateWithBothCAs(t)
+	if err != nil {
+		t.Fatal(err)
+	}
+	defer os.RemoveAll(tmpdir)
+	const user = "username"
+	if err := state.SaveUserProfile(user, &userProfile{}); err != nil {
+		t.Fatal(err)
+	}
+	if state.totpLocalRateLimit == nil {
+		state.totpLocalRateLimit = make(map[string]totpRateLimitInfo)
+	}
+	state.totpLocalRateLimit[user] = totpRateLimitInfo{failCount: 4, lastCheckTime: time.Now().Add(-10 * time.Second), lastFailTime: time.Now().Add(-10 * time.Second), lockoutExpirationTime: time.Now().Add(-10 * time.Second)}
+	ok, err := state.validateUserTOTP(user, 123456, time.Now())
+	rec := state.totpLocalRateLimit[user]
+	t.Logf("fifth failed evaluation -> accepted=%v err=%v failCount=%d lock-out ends %s from now", ok, err, rec.failCount, time.Until(rec.lockoutExpirationTime).Round(time.Second))
+	if !ok && err == nil && rec.failCount%5 == 0 && rec.failCount > 0 && time.Until(rec.lockoutExpirationTime) < 59*time.Minute {
+		t.Logf("REPLAY-CONFIRMED: no lock-out after the fifth failure")
+	} else {
+		t.Logf("REPLAY-NOT-REPRODUCED")
+	}
+}
